@@ -38,12 +38,17 @@ def param_fn(e):
         if isinstance(e, list) and not G.is_aff(e):
             return [float(x[1]) if G.is_aff(x) else float(x) for x in e]
         return float(e[1]) if G.is_aff(e) else float(e)
+    defaults = {}
+    for x in (e if (isinstance(e, list) and not G.is_aff(e)) else [e]):
+        if G.is_aff(x) and len(x) > 3:
+            defaults.update(x[3])
     base = "0.0*(%s)" % " + ".join(vs)
     if isinstance(e, list) and not G.is_aff(e):
         body = "torch.column_stack((%s,))" % ", ".join("torch.as_tensor(%s)" % _scalar_src(x, base) for x in e)
     else:
         body = _scalar_src(e, base)
-    src = "lambda %s: %s" % (", ".join(vs), body)
+    sig = [v for v in vs if v not in defaults] + ["%s=%r" % (v, float(defaults[v])) for v in vs if v in defaults]
+    src = "lambda %s: %s" % (", ".join(sig), body)
     fn = eval(src, {"torch": torch})
     fn.__name__ = "f_" + "_".join(vs)
     fn._src = src
